@@ -24,6 +24,7 @@ type Program struct {
 	RepoSupport bool           // support code copied from /repo/test (P00)
 	Extra    string            // hand-written harness source appended to zz_spec.go (family "custom")
 	ExtraHs  []string          // names of the harness functions in Extra
+	SepHooks string            // source of the hook delegators a separate target package needs
 }
 
 func leafMsg() *M  { return msg("Leaf", nil, fld("Str", TString), fld("Num", TInt64)) }
@@ -134,7 +135,7 @@ func programs() []*Program {
 		},
 		Cfg: func() *Config { return baseConfig("O1", "O2") }})
 
-	add(&Program{Name: "P-oneof-dur", Quick: false,
+	add(&Program{Name: "P-oneof-dur", Quick: true,
 		File: func() *FileSpec {
 			od := msg("OD", []string{"O"}, fld("Own", TString),
 				tsfld("OTs").oneof(0), fld("OB", TBytes).oneof(0), fld("ODu", TInt64).stddur().oneof(0), fld("ODc", TInt64).cast("Duration").oneof(0))
@@ -199,7 +200,7 @@ func programs() []*Program {
 			c.ExcludeFields = []string{"A.Y.Z.Flag", "Shared.Num"}
 			return c
 		}})
-	add(&Program{Name: "P-custom", Quick: true, Families: []string{"custom", "schema"}, Support: customSupport, Extra: customHarness,
+	add(&Program{Name: "P-custom", Quick: true, Families: []string{"custom", "schema"}, Support: customSupport, Extra: customHarness, SepHooks: customSepHooks,
 		ExtraHs: []string{"Harness_Custom_To", "Harness_Custom_From"},
 		File: func() *FileSpec {
 			cu := msg("Cu", nil, fld("Own", TString), fld("C", TString).custom("StrCustom").nonnull().doc(" C is custom\n"),
@@ -212,6 +213,8 @@ func programs() []*Program {
 			c.Suffixes = map[string]string{"BoolCustom": "BoolSpecial"}
 			c.RequiredFields = []string{"Cu.C"}
 			c.SensitiveFields = []string{"Cu.CfgC"}
+			c.Validators = map[string][]string{"Cu.C": {"UseMockValidator()", "UseMockValidator()"}}
+			c.PlanModifiers = map[string][]string{"Cu.CL": {"github.com/hashicorp/terraform-plugin-framework/tfsdk.RequiresReplace()"}}
 			return c
 		}})
 
@@ -251,6 +254,15 @@ func programs() []*Program {
 			return &FileSpec{Name: "p.proto", Msgs: []*M{leafMsg(), mix, two, em, hold}}
 		},
 		Cfg: func() *Config { return baseConfig("EM", "EMHold") }})
+
+	// a map of messages and a list of messages declared in a nested (non-root) message
+	add(&Program{Name: "P-mapnest", Quick: true, Bounds: map[string][2]int{"refresh": {2, 1}, "echo": {2, 1}, "corrupt": {2, 1}},
+		File: func() *FileSpec {
+			in := msg("In2", nil, mapfld("Leaves", mfld("v", "Leaf")), mfld("Ls", "Leaf").rep(), fld("Tag", TString))
+			r := msg("R2", nil, mfld("In", "In2").nonnull(), mfld("InP", "In2"), mapfld("Top", mfld("v", "Leaf").nonnull()))
+			return &FileSpec{Name: "p.proto", Msgs: []*M{leafMsg(), in, r}}
+		},
+		Cfg: func() *Config { return baseConfig("R2") }})
 
 	// messages declared top-down (container before the types it nests): base of the C12 selections
 	add(&Program{Name: "P-order", Quick: true,
@@ -316,6 +328,23 @@ type hookValue struct {
 
 var hookCalls = map[string]int{}
 
+func countHook(n string) {
+	if hookCalls == nil {
+		hookCalls = map[string]int{}
+	}
+	hookCalls[n]++
+}
+
+// CustomValueForTest: an attribute value of the hook type (used when a conforming object is drawn).
+func CustomValueForTest() attr.Value { return hookValue{Hook: "drawn"} }
+
+func customValue_StrCustom() attr.Value       { return hookValue{Hook: "drawn"} }
+func customValue_BoolSpecial() attr.Value     { return hookValue{Hook: "drawn"} }
+func customValue_pkgsubCfgCustom() attr.Value { return hookValue{Hook: "drawn"} }
+
+// CustomAttrTypeForTest exposes the hook attribute type to a separate target package.
+func CustomAttrTypeForTest() attr.Type { return hookType{} }
+
 func customAttrType_StrCustom() attr.Type     { return hookType{} }
 func customAttrType_BoolSpecial() attr.Type   { return hookType{} }
 func customAttrType_pkgsubCfgCustom() attr.Type { return hookType{} }
@@ -325,34 +354,34 @@ func GenSchemaBoolSpecial(_ context.Context, a tfsdk.Attribute) tfsdk.Attribute 
 func GenSchemapkgsubCfgCustom(_ context.Context, a tfsdk.Attribute) tfsdk.Attribute { a.Type = hookType{}; return a }
 
 func CopyToStrCustom(diags diag.Diagnostics, obj StrCustom, t attr.Type, v attr.Value) attr.Value {
-	hookCalls["CopyToStrCustom"]++
+	countHook("CopyToStrCustom")
 	_, ok := t.(hookType)
 	return hookValue{Hook: "CopyToStrCustom", Arg: string(obj), TypeSeen: ok, PrevSeen: v != nil}
 }
 func CopyToBoolSpecial(diags diag.Diagnostics, obj []BoolCustom, t attr.Type, v attr.Value) attr.Value {
-	hookCalls["CopyToBoolSpecial"]++
+	countHook("CopyToBoolSpecial")
 	_, ok := t.(hookType)
 	return hookValue{Hook: "CopyToBoolSpecial", ArgLen: len(obj), TypeSeen: ok, PrevSeen: v != nil}
 }
 func CopyTopkgsubCfgCustom(diags diag.Diagnostics, obj string, t attr.Type, v attr.Value) attr.Value {
-	hookCalls["CopyTopkgsubCfgCustom"]++
+	countHook("CopyTopkgsubCfgCustom")
 	_, ok := t.(hookType)
 	return hookValue{Hook: "CopyTopkgsubCfgCustom", Arg: obj, TypeSeen: ok, PrevSeen: v != nil}
 }
 func CopyFromStrCustom(diags diag.Diagnostics, tf attr.Value, obj *StrCustom) {
-	hookCalls["CopyFromStrCustom"]++
+	countHook("CopyFromStrCustom")
 	if h, ok := tf.(hookValue); ok {
 		*obj = StrCustom(h.Arg)
 	}
 }
 func CopyFromBoolSpecial(diags diag.Diagnostics, tf attr.Value, obj *[]BoolCustom) {
-	hookCalls["CopyFromBoolSpecial"]++
+	countHook("CopyFromBoolSpecial")
 	if h, ok := tf.(hookValue); ok {
 		*obj = make([]BoolCustom, h.ArgLen)
 	}
 }
 func CopyFrompkgsubCfgCustom(diags diag.Diagnostics, tf attr.Value, obj *string) {
-	hookCalls["CopyFrompkgsubCfgCustom"]++
+	countHook("CopyFrompkgsubCfgCustom")
 	if h, ok := tf.(hookValue); ok {
 		*obj = h.Arg
 	}
@@ -444,4 +473,42 @@ func Harness_Custom_From() {
 	vrt.Assert("C17/Cu/cfg_c:field-is-hook-result", obj.CfgC == arg && hookCalls["CopyFrompkgsubCfgCustom"] == 1)
 	vrt.Reach("Custom/From/end")
 }
+`
+
+const customSepHooks = `package tb
+
+import (
+	"context"
+
+	"github.com/hashicorp/terraform-plugin-framework/attr"
+	"github.com/hashicorp/terraform-plugin-framework/diag"
+	"github.com/hashicorp/terraform-plugin-framework/tfsdk"
+	sp "vp/p"
+)
+
+func customAttrType_StrCustom() attr.Type       { return sp.CustomAttrTypeForTest() }
+func customAttrType_BoolSpecial() attr.Type     { return sp.CustomAttrTypeForTest() }
+func customAttrType_pkgsubCfgCustom() attr.Type { return sp.CustomAttrTypeForTest() }
+
+func customValue_StrCustom() attr.Value       { return sp.CustomValueForTest() }
+func customValue_BoolSpecial() attr.Value     { return sp.CustomValueForTest() }
+func customValue_pkgsubCfgCustom() attr.Value { return sp.CustomValueForTest() }
+
+func GenSchemaStrCustom(c context.Context, a tfsdk.Attribute) tfsdk.Attribute { return sp.GenSchemaStrCustom(c, a) }
+func GenSchemaBoolSpecial(c context.Context, a tfsdk.Attribute) tfsdk.Attribute { return sp.GenSchemaBoolSpecial(c, a) }
+func GenSchemapkgsubCfgCustom(c context.Context, a tfsdk.Attribute) tfsdk.Attribute {
+	return sp.GenSchemapkgsubCfgCustom(c, a)
+}
+func CopyToStrCustom(d diag.Diagnostics, o sp.StrCustom, t attr.Type, v attr.Value) attr.Value {
+	return sp.CopyToStrCustom(d, o, t, v)
+}
+func CopyToBoolSpecial(d diag.Diagnostics, o []sp.BoolCustom, t attr.Type, v attr.Value) attr.Value {
+	return sp.CopyToBoolSpecial(d, o, t, v)
+}
+func CopyTopkgsubCfgCustom(d diag.Diagnostics, o string, t attr.Type, v attr.Value) attr.Value {
+	return sp.CopyTopkgsubCfgCustom(d, o, t, v)
+}
+func CopyFromStrCustom(d diag.Diagnostics, tf attr.Value, o *sp.StrCustom)    { sp.CopyFromStrCustom(d, tf, o) }
+func CopyFromBoolSpecial(d diag.Diagnostics, tf attr.Value, o *[]sp.BoolCustom) { sp.CopyFromBoolSpecial(d, tf, o) }
+func CopyFrompkgsubCfgCustom(d diag.Diagnostics, tf attr.Value, o *string)   { sp.CopyFrompkgsubCfgCustom(d, tf, o) }
 `
